@@ -295,7 +295,7 @@ TrIterEnd(ev) ==
               /\ Mon(IF call.base # sol THEN "C10.StaleInternalClauses" ELSE "C03.Complete",
                      sol = {}, <<"missing", sol>>)
               /\ Mon("C03.EndKind", yielded = {}, "UNSAT after a solution")
-         [] OTHER -> Mon("C11.UnknownOnlyIfInterrupted", InterruptedCall \/ call.polls >= 200000,
+         [] OTHER -> Mon("C11.UnknownOnlyIfInterrupted", InterruptedCall \/ call.polls >= 60000,
                          "iteration ended UNKNOWN without interrupt")
     /\ UNCHANGED evars
     /\ UNCHANGED <<scn, eng, before>>
